@@ -1,5 +1,6 @@
 mod r#gen;
 mod envelope;
+mod http;
 mod node;
 mod parsers;
 mod sample;
@@ -179,6 +180,13 @@ fn main() -> Result<()> {
       arg_value(&args, "--seed").map(|s| s.parse().unwrap()).unwrap_or(0),
       arg_value(&args, "--n").map(|s| s.parse().unwrap()).unwrap_or(300),
       arg_value(&args, "--max-len").map(|s| s.parse().unwrap()).unwrap_or(5),
+      &arg_value(&args, "--out").ok_or_else(|| anyhow!("--out"))?,
+    ),
+    "http-content" => http::content(&arg_value(&args, "--out").ok_or_else(|| anyhow!("--out"))?),
+    "http-json" => http::json_routes(
+      arg_value(&args, "--seed").map(|s| s.parse().unwrap()).unwrap_or(0),
+      arg_value(&args, "--n").map(|s| s.parse().unwrap()).unwrap_or(3),
+      arg_value(&args, "--blocks").map(|s| s.parse().unwrap()).unwrap_or(16),
       &arg_value(&args, "--out").ok_or_else(|| anyhow!("--out"))?,
     ),
     "crash-child" => runner::crash_child(&args[1..]),
